@@ -18,6 +18,8 @@ TRUSTED = [
     'nonzero, concatenate (exercised through the real code, modelled by their meaning)',
     'harness-side expansion of fiber=None ("all fibres") calls into explicit request vectors (number_of_fibers: 640 '
     'before MJD 55025, platelist N_TOTAL afterwards)',
+    'history groups: module-level state in pydl is only observable through sequences of calls in one process; the harness '
+    'runs fixed interleavings over 4-5 trees/reductions per group (not all interleavings)',
     'harness/impl/c16_impl.py sets RUN2D, RUN1D, BOSS_SPECTRO_REDUX/SPECTRO_REDUX, SPECTRO_MATCH, PHOTO_RESOLVE per call',
     'Coq stdlib ZArith, List, Permutation, Sorted, Lia (theorems closed under the global context)',
 ]
